@@ -23,7 +23,7 @@ func init() {
 func c01backlog(c *ctx) {
 	cases := []struct{ total, chunk, tail int }{{1600000, 16000, 100}, {1200000, 700, 5000}}
 	if c.thorough() {
-		cases = append(cases, struct{ total, chunk, tail int }{9000000, 16132, 1}, struct{ total, chunk, tail int }{3000000, 1, 70000})
+		cases = append(cases, struct{ total, chunk, tail int }{9000000, 16132, 1}, struct{ total, chunk, tail int }{150000, 1, 70000})
 	}
 	for k, cs := range cases {
 		if cs.chunk == 1 && !c.thorough() {
